@@ -163,14 +163,14 @@ Proof.
     destruct (analyze G e) as [ia|] eqn:E1; [|discriminate].
     destruct (as_int ia) as [x|] eqn:Ex; [|discriminate].
     destruct (hi x) as [|z|] eqn:Eh; try discriminate.
-    destruct (cv ia); [discriminate|]. inversion HA; subst; clear HA.
+    inversion HA; subst; clear HA.
     eexists. cbn [eval]. unfold bounds_of. rewrite E1. cbn. apply as_int_inv in Ex. rewrite Ex, Eh.
     split; [reflexivity|exact I].
   - (* ELower *)
     destruct (analyze G e) as [ia|] eqn:E1; [|discriminate].
     destruct (as_int ia) as [x|] eqn:Ex; [|discriminate].
     destruct (lo x) as [|z|] eqn:Eh; try discriminate.
-    destruct (cv ia); [discriminate|]. inversion HA; subst; clear HA.
+    inversion HA; subst; clear HA.
     eexists. cbn [eval]. unfold bounds_of. rewrite E1. cbn. apply as_int_inv in Ex. rewrite Ex, Eh.
     split; [reflexivity|exact I].
 Qed.
